@@ -44,7 +44,8 @@ HARNESSES = [
 ENCODED = ["HeapCellValue::order_category", "TermOrderCategory (derived Ord)", "<Atom as Ord>::cmp",
            "<Number as Ord>::cmp (fixnum, float arms)",
            "ParallelHeapIter::next compound arms (MIR: push order, sides, (arity, name) comparisons, "
-           "Str x Str argument loop)"]
+           "Str x Str argument loop)",
+           "compare_pstr_slices::{closure} (MIR: tail indices, mismatch window)"]
 ASSUME = ["inline atoms only (ASCII, 1 symbolic byte per atom)", "4-cell heap",
           "M: no Str cell carries './2' (lists are Lis/PStrLoc cells: parser Term::Cons, functor/3), so the "
           "pushes of the four Str x list arms are unreachable (z3 decides the infeasibility)",
@@ -64,12 +65,24 @@ def mpost(results, tier="quick"):
     ok = static_atoms.atom_order_wiring()
     log("  Atom::cmp = str::cmp(as_str(a), as_str(b)) (MIR): %s" % ok)
     r = m13.run(thorough=(tier == "thorough"))
+    # compare_pstr_slices (string x string segments): tail indices and mismatch window
+    from vlib.mirsmt import c20 as m20
+    r2 = m20.run(thorough=(tier == "thorough"), prop="C13")
+    r["evaluations"] = r.get("evaluations", 0) + r2.get("evaluations", 0)
+    r["distinct_nontrivial"] = r.get("distinct_nontrivial", 0) + r2.get("distinct_nontrivial", 0)
+    r.setdefault("samples", []).extend(r2.get("samples", []))
+    r.setdefault("mirsmt_regions", []).extend(r2.get("mirsmt_regions", []))
+    e1, e2 = r.get("exit", EXIT_OK), r2.get("exit", EXIT_OK)
+    r["exit"] = EXIT_VIOLATION if EXIT_VIOLATION in (e1, e2) else (
+        EXIT_INCONCLUSIVE if EXIT_INCONCLUSIVE in (e1, e2) else EXIT_OK)
+    if "mirsmt_violations" in r2:
+        r.setdefault("mirsmt_violations", []).extend(r2["mirsmt_violations"])
     r.setdefault("samples", []).append(
         {"query": "<Atom as Ord>::cmp compares the as_str texts, self first", "answer": ok})
     r["evaluations"] = r.get("evaluations", 0) + 1
     r["distinct_nontrivial"] = r.get("distinct_nontrivial", 0) + (1 if ok else 0)
-    if not ok and r.get("exit", EXIT_OK) == EXIT_OK:
-        r["exit"] = EXIT_INCONCLUSIVE
+    if not ok and r.get("exit", EXIT_OK) != EXIT_VIOLATION:
+        r["exit"] = static_atoms.order_replay("C13")
     return r
 
 
